@@ -88,6 +88,7 @@ type commitRec struct {
 }
 
 type cnode struct {
+	wedged  bool // the worker did not come back from an input (see step)
 	cl      *cluster
 	idx     int
 	id      primitives.MemberId
@@ -475,9 +476,20 @@ func (n *cnode) resetObs() {
 // step releases the worker for exactly one loop iteration (one input is ready) and waits for it to
 // come back to the gate.
 func (n *cnode) step() {
+	if n.wedged {
+		return
+	}
 	n.resume <- struct{}{}
-	<-n.idle
+	select {
+	case <-n.idle:
+	case <-time.After(wedgeAfter):
+		// the worker took the input and never came back to the top of its loop (a lock it leaked, a wait nobody ends):
+		// nothing of this node can be read any more (its storage may be locked); the run ends with a "wedged" event
+		n.wedged = true
+	}
 }
+
+var wedgeAfter = 10 * time.Second
 
 func (n *cnode) deliver(raw *interfaces.ConsensusRawMessage) {
 	n.inputs = append(n.inputs, inputRec{kind: "deliver", raw: raw})
